@@ -25,6 +25,22 @@ func genDecoderSpec(r *RNG, target, class string) DecoderSpec {
 		d.WindowSize = r.Range(1, 16)
 	case "small":
 		d.WindowSize = r.Range(17, 300)
+	case "mega":
+		// windows of 1 MiB and more, the first write hands over 1 MiB and more
+		// in one slice (see genDecoderTrace)
+		d.WindowSize = r.Pick(1<<20, 1<<20+1, 1500000)
+		ws := d.WindowSize
+		switch r.Intn(5) {
+		case 0:
+			d.BufferSize = 0
+		case 1, 2:
+			d.BufferSize = ws + 1 + r.Intn(ws) // < 2*WS
+		case 3:
+			d.BufferSize = 2 * ws
+		default:
+			d.BufferSize = ws + 1 + r.Intn(1<<14)
+		}
+		return d
 	case "wide":
 		// volume stratum: windows of 64 KiB to 1 MiB (matches longer than
 		// 64 KiB, offsets beyond 64 KiB, MiBs through the buffer)
@@ -298,6 +314,15 @@ func genDecoderTrace(r *RNG, g dgen) *Trace {
 	w := []int{6, 8, 5, 12, g.readBias, g.readBias, 2, g.resetW} // WByte Write WMatch WBlock Read Flush ByteAtEnd Reset
 	if target == "decoder" {
 		w[2], w[4], w[6] = 0, 0, 0
+	}
+	if class == "mega" {
+		n := r.Pick(1<<20, 1<<20+1, 2<<20, bs-ws+1<<20, 1<<20-1)
+		t.Ops = append(t.Ops, Op{K: "Write", Lits: genLits(r, n), Re: r.Chance(g.retry)})
+		if target == "decoder" && r.Chance(0.7) {
+			// a match at the window limit right behind it
+			l := r.Intn(3)
+			t.Ops = append(t.Ops, Op{K: "WBlock", Seqs: []SeqSpec{{L: l, M: 1 + r.Intn(1000), Sel: 1}}, Lits: genLits(r, l)})
+		}
 	}
 	for len(t.Ops) < g.nOps {
 		switch r.Weighted(w) {
